@@ -130,9 +130,6 @@ Section LockSchedule.
     nth_error os i = Some x -> nth_error (map (fun _ : op => @Waiting data) os) i = Some Waiting.
   Proof. intros H. rewrite nth_error_map, H. reflexivity. Qed.
 
-  (** a schedule made of one block per operation *)
-  Definition blocks_sched (bl : list (nat * nat)) : list nat := flat_map (fun b => repeat (fst b) (snd b)) bl.
-
   Lemma serial_schedule_exists (os : list op) (d0 : oid -> data) (log : list nat) :
     NoDup log -> (forall i, In i log -> exists x, nth_error os i = Some x) ->
     exists bl, map fst bl = log /\
